@@ -98,14 +98,20 @@ def source_of(sig, coro=False, method=True, extra_first=None):
 
 
 def make_callable(sig, how, rec, ret):
-    """how: sm_method | model_method | listener_method | function | partial | coro_method"""
+    """how: sm_method | model_method | listener_method | function | partial | coro_method | wrapped (a method behind a
+    functools.wraps decorator whose wrapper takes *args, **kwargs: what it declares is what the wrapped function declares)"""
     coro = how == "coro_method"
-    method = how in ("sm_method", "model_method", "listener_method", "coro_method")
+    method = how in ("sm_method", "model_method", "listener_method", "coro_method", "wrapped")
     extra = "_bound" if how == "partial" else None
     ns = {"REC": rec, "RET": ret}
     exec(source_of(sig, coro=coro, method=method, extra_first=extra), ns)   # noqa: S102 - generated text only
     fn = ns["cb"]
     fn.__qualname__ = "BindM.cb"          # same qualified name for every case, on purpose
+    if how == "wrapped":
+        @functools.wraps(fn)
+        def traced(*a, **k):
+            return fn(*a, **k)
+        return traced
     if how == "partial":
         p = functools.partial(fn, "BOUND")
         p.__name__ = "cb"      # a callback needs a name (CallbackSpec reads func.__name__)
@@ -123,7 +129,7 @@ def build_forwarding(sig, how, group, rec):
     attrs = {"s0": s0, "s1": s1, "s2": s2, "__module__": "vmod_c07"}
     model_attrs, lis_attrs = {"state": None}, {}
     ref = "cb"
-    if how in ("sm_method", "coro_method"):
+    if how in ("sm_method", "coro_method", "wrapped"):
         attrs["cb"] = fn
     elif how == "model_method":
         model_attrs["cb"] = fn
@@ -149,7 +155,7 @@ def build(sig, how, group, rec):
     attrs = {"s0": s0, "s1": s1, "__module__": "vmod_c07"}
     model_attrs, lis_attrs = {"state": None}, {}
     ref = "cb"
-    if how in ("sm_method", "coro_method"):
+    if how in ("sm_method", "coro_method", "wrapped"):
         attrs["cb"] = fn
     elif how == "model_method":
         model_attrs["cb"] = fn
@@ -247,7 +253,7 @@ def run(pid, tier, seed, replay):
     if insane:
         raise tlc.MachineryError(f"Bind.tla violates its own sanity theorem on case {insane[0]['t']}")
     chk.coverage["tlc_cases_evaluated"] = len(cases)
-    hows = ["sm_method", "model_method", "listener_method", "function", "partial", "coro_method"]
+    hows = ["sm_method", "model_method", "listener_method", "function", "partial", "coro_method", "wrapped"]
     groups = ["on", "before", "after", "cond", "enter", "validators"]
     nrun = nunspec = ntypeerr = nforw = 0
     distinct = set()
